@@ -607,3 +607,87 @@ def selection_bookkeeping(ctx: Ctx, fq: str = "cirkit.backend.torch.graph.optimi
     if not out:
         out.append(unres("R14m", fq, "selected-set", "no membership test on a collection of selected matches found", f.loc))
     return out
+
+
+# ------------------------------------------------------------------------------------------ R14n / R14p
+def sampling_weight_guard(ctx: Ctx) -> list[Ob]:
+    """R14n -- sampling refuses negative weights, not zero weights.
+
+    A sum layer can be sampled when its weights are non-negative and normalised.  Mixing layers have
+    *structural* zeros (most entries of the H*K columns of a row are exactly 0), sparse mixtures too:
+    a refusal stated as 'not all weights > 0' (or 'any weight <= 0') makes the sampling query raise
+    for every such circuit although it encodes a valid distribution.  In every ``sample`` of an inner
+    layer, a sign test of the weight against 0 is ``< 0`` (some entry negative) or its negation."""
+    out: list[Ob] = []
+    inner = ctx.repo.cls("cirkit.backend.torch.layers.inner.TorchInnerLayer")
+    for c in ctx.repo.subclasses(inner):
+        m = c.methods.get("sample")
+        if m is None:
+            continue
+        for n in walk_no_nested(m.node):
+            if isinstance(n, ast.Compare) and len(n.ops) == 1 and isinstance(n.comparators[0], ast.Constant) and n.comparators[0].value in (0, 0.0) and "weight" in unparse(n.left):
+                site = f"{m.module.relpath}:{n.lineno}"
+                op = type(n.ops[0])
+                if op in (ast.Lt, ast.GtE):
+                    out.append(ok("R14n", m.qualname, "sign-test", f"`{unparse(n)}`: zero weights are admitted", site))
+                elif op in (ast.Gt, ast.LtE):
+                    out.append(viol("R14n", m.qualname, "sign-test", f"`{unparse(n)}` separates strictly positive weights from the rest: a weight of exactly 0 (the structural zeros of a mixing layer, a sparse mixture) makes sampling refuse a circuit that encodes a valid distribution", site))
+    if not out:
+        out.append(unres("R14n", "cirkit.backend.torch.layers", "sign-test", "no sign test of the weights in any sample()", ""))
+    return out
+
+
+INT_CAPACITY = {"int8": 128, "uint8": 256, "int16": 32768, "char": 128, "byte": 256, "short": 32768}
+
+
+def narrowing_casts(ctx: Ctx, modules: tuple[str, ...] = ("cirkit.backend.torch.layers", "cirkit.backend.torch.queries")) -> list[Ob]:
+    """R14p -- samples are not cast to an integer type that cannot hold every category.
+
+    ``int8`` holds 0..127, ``uint8`` 0..255: a 'compact' cast of category indices guarded by
+    ``num_categories <= 256`` wraps the categories 128..255 to negative numbers without any error
+    (image data has 256 intensities).  A narrowing cast in ``sample`` / the sampling query is allowed
+    only under a guard ``<count> <= K`` with K within the capacity of the target type."""
+    out: list[Ob] = []
+    n_fn = 0
+    for f in ctx.repo.iter_functions():
+        if not f.module.name.startswith(modules) or not ("sample" in f.name):
+            continue
+        n_fn += 1
+        par: dict[int, ast.AST] = {}
+        for x in ast.walk(f.node):
+            for ch in ast.iter_child_nodes(x):
+                par[id(ch)] = x
+        for c in walk_no_nested(f.node):
+            tgt = None
+            if isinstance(c, ast.Call) and isinstance(c.func, ast.Attribute) and c.func.attr in ("to", "type", "astype") and c.args:
+                d = (dotted(c.args[0]) or "").split(".")[-1]
+                if d in INT_CAPACITY:
+                    tgt = d
+            if isinstance(c, ast.Call) and isinstance(c.func, ast.Attribute) and c.func.attr in ("char", "byte", "short") and not c.args:
+                tgt = c.func.attr
+            if tgt is None:
+                continue
+            cap = INT_CAPACITY[tgt]
+            site = f"{f.module.relpath}:{c.lineno}"
+            # enclosing guard  <expr> <= K  /  <expr> < K
+            bound = None
+            cur: ast.AST | None = c
+            while cur is not None and cur is not f.node:
+                up = par.get(id(cur))
+                if isinstance(up, ast.If) and any(cur is b for b in up.body):
+                    for t in ast.walk(up.test):
+                        if isinstance(t, ast.Compare) and len(t.ops) == 1 and isinstance(t.comparators[0], ast.Constant) and isinstance(t.comparators[0].value, int):
+                            k = t.comparators[0].value
+                            if isinstance(t.ops[0], ast.LtE):
+                                bound = k
+                            elif isinstance(t.ops[0], ast.Lt):
+                                bound = k - 1
+                cur = up
+            if bound is None:
+                out.append(viol("R14p", f.qualname, f"narrow:{tgt}", f"`{unparse(c)[:60]}` narrows sampled values to {tgt} (capacity {cap}) without a guard on the number of categories", site))
+            elif bound > cap:
+                out.append(viol("R14p", f.qualname, f"narrow:{tgt}", f"`{unparse(c)[:60]}` narrows sampled category indices to {tgt}, which holds {cap} values, under a guard that admits up to {bound} categories: the categories from {cap} on wrap around (negative / wrong indices) without an error", site))
+            else:
+                out.append(ok("R14p", f.qualname, f"narrow:{tgt}", f"guarded by a bound of {bound} <= {cap}", site))
+    out.append(ok("R14p", "cirkit.backend.torch", "narrowing-casts", f"{n_fn} sampling functions scanned", "", nontrivial=False))
+    return out
